@@ -908,8 +908,14 @@ func (d *jsonDecDriver[T]) DecodeBytes() (bs []byte, state dBytesAttachState) {
 
 	d.ensureReadingString()
 	bs1 := d.readUnescapedString()
-	// base64 is most compact of supported formats; it's decodedlen is sufficient for all
-	slen := base64.StdEncoding.DecodedLen(len(bs1))
+	// size the destination for the configured formats: the largest decodedlen of any of them.
+	// (base64's is not sufficient for all: 2 hex characters decode to 1 byte, base64's decodedlen of 2 is 0)
+	var slen int
+	for _, v := range d.byteFmters {
+		if n := v.DecodedLen(len(bs1)); n > slen {
+			slen = n
+		}
+	}
 	if slen == 0 {
 		bs = zeroByteSlice
 		state = dBytesDetach
